@@ -18,11 +18,38 @@ def cases(tier, seed):
         used = set()
         items = [[gen.gen_name(r, used, odd=0.25), gen.gen_md_value(r, 0, r.choice([1, 2, 4]) if tier == "quick" else r.choice([2, 4, 7]))]
                  for _ in range(r.choice([1, 2, 4, 7]))]
-        yield {"name": gen.gen_name(r, set(), odd=0.2), "items": items}
+        case = {"name": gen.gen_name(r, set(), odd=0.2), "items": items}
+        # ALIASING: one container object reachable by two paths (under a second key, and / or inside another dict, possibly
+        # deeper): values are compared by content, so sharing an object must not matter
+        conts = []
+        def collect(v, depth):
+            if v["t"] in ("dict", "list", "tuple", "arr"):
+                conts.append((v, depth))
+            if v["t"] == "dict":
+                for _, x in v["items"]:
+                    collect(x, depth + 1)
+        for _, v in items:
+            collect(v, 0)
+        if conts and r.random() < 0.3:
+            case["share"] = True
+            import copy
+            for _ in range(r.choice([1, 1, 2])):
+                v, _d = r.choice(conts)
+                dicts = [c for c, _ in conts if c["t"] == "dict" and c is not v]
+                where = r.random()
+                if dicts and where < 0.6:
+                    tgt = r.choice(dicts)
+                    keys = {k for k, _ in tgt["items"]}
+                    tgt["items"].append([gen.gen_name(r, keys, odd=0.1), copy.deepcopy(v)])
+                else:
+                    keys = {k for k, _ in items}
+                    items.append([gen.gen_name(r, keys, odd=0.1), copy.deepcopy(v)])
+        yield case
 
 
 def run_both(drv, case):
-    data = {k: gen.build_md_value(v) for k, v in case["items"]}
+    share = {} if case.get("share") else None
+    data = {k: gen.build_md_value(v, share) for k, v in case["items"]}
     md = emdfile.Metadata(name=case["name"], data=data)
     items_json = [[k, mdvals.pv(v)] for k, v in data.items()]
     io = {"obj": None, "back": None, "canon": mdvals.canon_items(items_json)}
